@@ -1859,6 +1859,9 @@ def _localkey_with(try_):
     return h
 
 
+# reference-counted / boxed values are transparent where nothing more specific is modelled (no counting: C20 has its own Arc model)
+FALLBACK.setdefault(r"(^|::)(Arc|Rc|Box)::new$", lambda eng, ctx, f, path, args, dty: args[0])
+FALLBACK.setdefault(r"^<(Arc|Rc|Box) as Deref(Mut)?>::deref(_mut)?$", lambda eng, ctx, f, path, args, dty: args[0])
 FALLBACK[r"(^|::)LocalKey::new$"] = m_localkey_new
 FALLBACK[r"(^|::)LocalKey::with$"] = _localkey_with(False)
 FALLBACK[r"(^|::)LocalKey::try_with$"] = _localkey_with(True)
